@@ -97,8 +97,8 @@ def run(ck):
     for ri, r in enumerate(recs):
         prog = r["prog"]
         b = r["builds"].get(("cl21", True))
-        if not b or b.get("compile") != "OK":
-            continue
+        if not b or b.get("compile") != "OK" or b.get("known"):
+            continue        # (a build in an open class of C01/C02 is wrong code: nothing can be concluded from running it)
         if prog.get("tag", "").startswith(("param", "sum_of")) and ri % 3:
             continue
         if len(lines) >= nmax:
@@ -195,7 +195,9 @@ def run(ck):
         iu = set(reported[ri])
         tie["programs_compared"] += 1
         tie["parameters_compared"] += len(flat)
-        if iu - mu:
+        if iu - mu and "c16.let_var_in_if" in kf and C16.let_var_in_if(prog):
+            ck.known_finding(kf["c16.let_var_in_if"])      # D29: uses reached through a let-bound name inside an if branch are lost
+        elif iu - mu:
             # the implementation reports a parameter that the model evaluator still finds in the residue
             corr.append({"what": "the unused-argument check reports a parameter the model evaluator keeps in its residue", "source": recs[ri]["builds"][("cl21", True)]["src"][:1500],
                          "implementation_reports": sorted(iu), "model_reports": sorted(mu)})
